@@ -34,12 +34,51 @@ class _Normalise(ast.NodeTransformer):
             out = [p]
         return out
 
+    _TERM = (ast.Return, ast.Raise, ast.Continue, ast.Break)
+
+    @staticmethod
+    def _weight(b):
+        return sum(1 for st in b for _ in ast.walk(st))
+
+    def _guard_first(self, test, a, b):
+        """Both arms `a` (taken when test holds) and `b` leave the block: decide, independently of how the code was written
+        (`if c: A` + B, `if c: A else: B`, `if not c: B else: A`), which arm is the guard.  True = keep `a` first."""
+        ra, rb = len(a) == 1 and isinstance(a[0], ast.Raise), len(b) == 1 and isinstance(b[0], ast.Raise)
+        if ra != rb:
+            return ra  # a lone `raise` is the guard
+        wa, wb = self._weight(a), self._weight(b)
+        if wa != wb:
+            return wa < wb  # the lighter arm is the guard
+        return not (isinstance(test, ast.UnaryOp) and isinstance(test.op, ast.Not))
+
+    def _flatten_else(self, body):
+        """Block canonical form around a terminal branch.  `if c: <...return/raise/continue/break> else: B` followed by R is
+        `if c: <...>` followed by B+R (no else after a terminal branch); when B+R leaves the block too, the guard arm is chosen by
+        _guard_first, so the early-exit form, the if/else form and the inverted form of one decision load identically."""
+        out = []
+        for i, st in enumerate(body):
+            if isinstance(st, ast.If) and st.body and isinstance(st.body[-1], self._TERM):
+                rest = list(st.orelse) + list(body[i + 1:])
+                if rest and isinstance(rest[-1], self._TERM) and not self._guard_first(st.test, st.body, rest):
+                    g = ast.copy_location(ast.If(test=self._negate(st.test), body=rest, orelse=[]), st)
+                    g.body = self._flatten_else(g.body)
+                    out.append(g)
+                    out += self._flatten_else(st.body)
+                    return out
+                if st.orelse:
+                    st.orelse = []
+                    out.append(st)
+                    out += self._flatten_else(rest)
+                    return out
+            out.append(st)
+        return out
+
     def generic_visit(self, node):
         super().generic_visit(node)
         for fld in ("body", "orelse", "finalbody"):
             b = getattr(node, fld, None)
             if isinstance(b, list) and b and isinstance(b[0], ast.stmt):
-                nb = self._body(b)
+                nb = self._flatten_else(self._body(b))
                 # `else: pass` left behind by removed log lines is dropped
                 if fld == "orelse" and all(isinstance(x, ast.Pass) for x in nb):
                     nb = []
@@ -63,6 +102,29 @@ class _Normalise(ast.NodeTransformer):
         if isinstance(node.op, ast.Not) and isinstance(node.operand, ast.Compare) and len(node.operand.ops) == 1 and type(node.operand.ops[0]) in self._NEG:
             c = node.operand
             return ast.copy_location(ast.Compare(left=c.left, ops=[self._NEG[type(c.ops[0])]()], comparators=c.comparators), node)
+        return node
+
+    def _negate(self, t: ast.expr) -> ast.expr:
+        if isinstance(t, ast.UnaryOp) and isinstance(t.op, ast.Not):
+            return t.operand
+        if isinstance(t, ast.Compare) and len(t.ops) == 1 and type(t.ops[0]) in self._NEG:
+            return ast.copy_location(ast.Compare(left=t.left, ops=[self._NEG[type(t.ops[0])]()], comparators=t.comparators), t)
+        return ast.copy_location(ast.UnaryOp(op=ast.Not(), operand=t), t)
+
+    def visit_If(self, node):
+        """Canonical two-armed `if` (elif chains are left alone):
+        exactly one arm ends in return/raise/continue/break -> that arm comes first (the else is flattened away afterwards);
+        otherwise a negated test is made positive by swapping the arms."""
+        if node.orelse and not (len(node.orelse) == 1 and isinstance(node.orelse[0], ast.If)):
+            bt, ot = isinstance(node.body[-1], self._TERM), isinstance(node.orelse[-1], self._TERM)
+            swap = False
+            if ot and not bt:
+                swap = True
+            elif not bt and not ot and isinstance(node.test, ast.UnaryOp) and isinstance(node.test.op, ast.Not):
+                swap = True
+            if swap:
+                node = ast.copy_location(ast.If(test=self._negate(node.test), body=node.orelse, orelse=node.body), node)
+        self.generic_visit(node)
         return node
 
     def visit_IfExp(self, node):
